@@ -995,6 +995,30 @@ func TestVerifC19(t *testing.T) {
 			dist.Add(fmt.Sprintf("%+v", in))
 			m.Count("link_runs")
 			turbo := in.SemiSync && in.Transition == "switchover"
+			// the shut-off itself fails for a registered candidate (restoring a setting fails, or the registry entry cannot be
+			// removed): nothing may be frozen or promoted in that attempt
+			if !turbo {
+				for k := 1; k < len(in.Nodes); k++ {
+					if in.Nodes[k].Reg == "" || in.Nodes[k].Down {
+						continue
+					}
+					h := fmt.Sprintf("h%d", k+1)
+					fin := in
+					switch o.Rng.Intn(3) {
+					case 0:
+						fin.Fault = &vk.Fault{Host: h, Kind: "SSetFlush", Nth: 0, Action: "err:1105"}
+					case 1:
+						fin.Fault = &vk.Fault{Host: h, Kind: "SSetSyncBinlog", Nth: 0, Action: "err:1105"}
+					default:
+						fin.DcsFault = &memFault{Op: "delete", Path: "optimization_nodes/" + h, Nth: 0}
+					}
+					fout := runLink(fin)
+					c19LinkMonitor(m, fin, fout)
+					m.Count("link_runs_with_failing_shutoff")
+					m.Evaluations++
+					break
+				}
+			}
 			if turbo {
 				m.Count("link_with_speedup_phase")
 				continue // the phase is replayed by goroutine in part C; the procedure around it without the phase below
